@@ -37,6 +37,7 @@ class FakeNetdev(Strict):
         self.peers = {}
         self.bridges = {}
         self.calls = 0
+        self.bridge_creates = 0
         self._mac = 0
         self._new(ext_device, mtu=9000, speed=10000)
 
@@ -141,6 +142,7 @@ class FakeNetdev(Strict):
             raise self._err('bridge_create %s: exists' % devname)
         self._new(devname)
         self.bridges[devname] = True
+        self.bridge_creates += 1
 
     def bridge_delete(self, devname):
         self._cmd('bridge_delete', devname)
